@@ -976,6 +976,178 @@ let e3_cmd (toks : string list) : string =
   | _ -> "bad-command"
 (* ---- E3 END ---- *)
 
+(* ---------- crash protocol engine (Crash/Proto.v) ---------- *)
+let cp_ints s = if s = "" then [] else List.map (fun x -> nat_of_int (int_of_string x)) (String.split_on_char ',' s)
+let cp_cov s =
+  if s = "" then [] else
+    List.map (fun x -> let l = String.length x in
+               (nat_of_int (int_of_string (String.sub x 0 (l - 1))), x.[l - 1] = '+')) (String.split_on_char ',' s)
+let cp_crash (tok : string) : pcrash =
+  match String.split_on_char ':' tok with
+  | ["cp"] -> CProc
+  | ["cw"; keep; garb; tkeep] ->
+    let kp = if keep = "" then [] else
+        List.map (fun x -> match String.split_on_char '=' x with
+            | [a; b] -> (nat_of_int (int_of_string a), nat_of_int (int_of_string b))
+            | _ -> failwith "bad keep") (String.split_on_char ',' keep) in
+    CPow (kp, cp_ints garb, cp_ints tkeep)
+  | _ -> failwith ("bad crash token " ^ tok)
+let cp_event (tok : string) : pevent =
+  let n x = nat_of_int (int_of_string x) in
+  match String.split_on_char ':' tok with
+  | ["rot"; s] -> WalRotate (n s)
+  | ["par"; s] -> WalPartial (n s)
+  | ["app"; s; b] -> WalAppend (n s, n b)
+  | ["rel"; s; b] -> Relog (n s, n b)
+  | ["syn"; s] -> WalSync (n s)
+  | ["ack"; b; d] -> Ack (n b, d = "1")
+  | ["acks"] -> AckSync
+  | ["tw"; id; c] -> TableWrite (n id, cp_cov c)
+  | ["ts"; id] -> TableSync (n id)
+  | ["mi"; l; ts] -> ManifestInstall (n l, cp_ints ts)
+  | ["wu"; s] -> WalUnlink (n s)
+  | ["tu"; id] -> TableUnlink (n id)
+  | ["ttd"; s] -> TornTailDrop (n s)
+  | "cp" :: _ | "cw" :: _ -> Crash (cp_crash tok)
+  | _ -> failwith ("bad event token " ^ tok)
+let cp_show_event (e : pevent) : string =
+  let i = int_of_nat in
+  let ints l = String.concat "," (List.map (fun x -> string_of_int (i x)) l) in
+  match e with
+  | WalRotate s -> Printf.sprintf "rot:%d" (i s)
+  | WalPartial s -> Printf.sprintf "par:%d" (i s)
+  | WalAppend (s, b) -> Printf.sprintf "app:%d:%d" (i s) (i b)
+  | Relog (s, b) -> Printf.sprintf "rel:%d:%d" (i s) (i b)
+  | WalSync s -> Printf.sprintf "syn:%d" (i s)
+  | Ack (b, d) -> Printf.sprintf "ack:%d:%d" (i b) (if d then 1 else 0)
+  | AckSync -> "acks"
+  | TableWrite (id, c) -> Printf.sprintf "tw:%d:%s" (i id) (String.concat "," (List.map (fun (b, f) -> Printf.sprintf "%d%s" (i b) (if f then "+" else "-")) c))
+  | TableSync id -> Printf.sprintf "ts:%d" (i id)
+  | ManifestInstall (l, ts) -> Printf.sprintf "mi:%d:%s" (i l) (ints ts)
+  | WalUnlink s -> Printf.sprintf "wu:%d" (i s)
+  | TableUnlink id -> Printf.sprintf "tu:%d" (i id)
+  | TornTailDrop s -> Printf.sprintf "ttd:%d" (i s)
+  | Crash CProc -> "cp"
+  | Crash (CPow (k, g, t)) -> Printf.sprintf "cw:%s:%s:%s" (String.concat "," (List.map (fun (a, b) -> Printf.sprintf "%d=%d" (i a) (i b)) k)) (ints g) (ints t)
+let cp_show_rec (r : (nat * bool) list option) : string =
+  match r with
+  | None -> "fail"
+  | Some l ->
+    let full = List.sort_uniq compare (List.filter_map (fun (b, f) -> if f then Some (int_of_nat b) else None) l) in
+    let part = List.sort_uniq compare (List.filter_map (fun (b, f) -> if f then None else Some (int_of_nat b)) l) in
+    let part = List.filter (fun b -> not (List.mem b full)) part in
+    Printf.sprintf "full=%s;part=%s" (String.concat "," (List.map string_of_int full)) (String.concat "," (List.map string_of_int part))
+let rec cp_take n l = if n <= 0 then [] else match l with [] -> [] | x :: r -> x :: cp_take (n - 1) r
+
+(* random walk over ACCEPTED events; at every state both theorems are evaluated for the process
+   crash and for random power-loss choices *)
+let cp_fuzz seed steps walks =
+  Random.init seed;
+  let ri n = if n <= 0 then 0 else Random.int n in
+  let bad = ref None and accepted = ref 0 and checks = ref 0 and crashes = ref 0 and kinds = Hashtbl.create 16 in
+  let rand_crash st =
+    let hi = int_of_nat st.seg_hi in
+    let keep = List.filter_map (fun s -> if Random.bool () then Some (nat_of_int s, nat_of_int (ri 6)) else None) (List.init hi (fun x -> x)) in
+    let garb = List.filter_map (fun s -> if ri 3 = 0 then Some (nat_of_int s) else None) (List.init hi (fun x -> x)) in
+    let tk = List.filter_map (fun s -> if Random.bool () then Some (nat_of_int s) else None) (List.init 12 (fun x -> x)) in
+    CPow (keep, garb, tk) in
+  for _w = 1 to walks do
+    if !bad = None then begin
+      let st = ref st0 and trace = ref [] and tid = ref 1 in
+      let step e =
+        if okb !st e then begin
+          st := papply !st e; trace := e :: !trace; incr accepted;
+          let k = List.hd (String.split_on_char ':' (cp_show_event e)) in
+          Hashtbl.replace kinds k (1 + (try Hashtbl.find kinds k with Not_found -> 0));
+          (match e with Crash _ -> incr crashes | _ -> ());
+          let cs = [CProc; rand_crash !st; rand_crash !st; CPow ([], [], [])] in
+          List.iter (fun c ->
+              incr checks;
+              if !bad = None && not (crash_safe_b !st c) then
+                bad := Some (String.concat " " (List.rev_map cp_show_event !trace) ^ " ?? " ^ cp_show_event (Crash c))) cs;
+          true
+        end else false in
+      let i = ref 0 in
+      while !i < steps && !bad = None do
+        incr i;
+        let hi = int_of_nat !st.seg_hi and nx = int_of_nat !st.next in
+        let seg () = nat_of_int (max 0 (hi - 1 - (if ri 4 = 0 then ri 3 else 0))) in
+        let batch () = nat_of_int (if ri 3 = 0 then ri (nx + 1) else max 0 (nx - 1 - ri 2)) in
+        let cov () =
+          (* mostly a contiguous range of recent batches, sometimes partial last, sometimes arbitrary *)
+          if ri 5 = 0 then List.init (ri 4) (fun _ -> (nat_of_int (ri (nx + 1)), Random.bool ()))
+          else begin
+            let lo = if ri 3 = 0 then ri (nx + 1) else 0 in
+            let hi' = lo + ri (nx - lo + 1) in
+            List.init (max 0 (hi' - lo)) (fun k -> (nat_of_int (lo + k), not (k = hi' - lo - 1 && ri 3 = 0)))
+          end in
+        let tabs_now () = List.filter (fun id -> !st.tabs (nat_of_int id) <> None) (List.init (!tid + 1) (fun x -> x)) in
+        let e =
+          match ri 22 with
+          | 0 -> WalRotate (nat_of_int (if ri 5 = 0 then hi + ri 2 else max hi (int_of_nat !st.mlog)))
+          | 1 -> WalPartial (seg ())
+          | 2 | 3 | 4 | 5 -> WalAppend (seg (), nat_of_int nx)
+          | 6 -> Relog (seg (), batch ())
+          | 7 | 8 -> WalSync (seg ())
+          | 9 | 10 -> Ack (batch (), Random.bool ())
+          | 11 -> AckSync
+          | 12 | 13 -> incr tid; TableWrite (nat_of_int !tid, cov ())
+          | 14 | 15 -> TableSync (nat_of_int (max 1 (!tid - ri 2)))
+          | 16 | 17 ->
+            (* a flush-like or compaction-like install: current tables, minus some, plus some *)
+            let cur = List.map int_of_nat !st.mtabs in
+            let cur = List.filter (fun _ -> ri 6 <> 0) cur in
+            let add = List.filter (fun id -> not (List.mem id cur) && ri 2 = 0) (tabs_now ()) in
+            let l = int_of_nat !st.mlog in
+            ManifestInstall (nat_of_int (if ri 3 = 0 then l else min (hi + 1) (l + 1 + ri 2)), List.map nat_of_int (cur @ add))
+          | 18 -> WalUnlink (nat_of_int (ri (hi + 1)))
+          | 19 -> TableUnlink (nat_of_int (ri (!tid + 1)))
+          | 20 -> TornTailDrop (seg ())
+          | _ -> if ri 3 = 0 then Crash (if Random.bool () then CProc else rand_crash !st) else WalAppend (seg (), nat_of_int nx) in
+        let took = step e in
+        (* after a crash the recovery procedure's own events must be accepted *)
+        (match e with
+         | Crash _ when took ->
+           List.iter (fun e' -> if not (step e') && !bad = None then
+                         bad := Some (String.concat " " (List.rev_map cp_show_event !trace) ^ " ?? recovery event rejected: " ^ cp_show_event e')) (recovery_plain !st)
+         | _ -> ())
+      done
+    end
+  done;
+  match !bad with
+  | Some t -> "counterexample: " ^ t
+  | None ->
+    Printf.sprintf "ok accepted=%d checks=%d crashes=%d kinds=%s" !accepted !checks !crashes
+      (String.concat "," (List.sort compare (Hashtbl.fold (fun k v acc -> Printf.sprintf "%s=%d" k v :: acc) kinds [])))
+
+let cp_cmd (toks : string list) : string =
+  match toks with
+  | "check" :: evs ->
+    (match proto_err (List.map cp_event (List.filter (fun x -> x <> "") evs)) with
+     | None -> "ok"
+     | Some (i, c) -> Printf.sprintf "rej:%d:%d" (int_of_nat i) (int_of_nat c))
+  | "predict" :: rest ->
+    (* cp predict <ev> ... ? <cut>/<crash> ...   -> verdict of the trace, then one prediction per query *)
+    let rec split acc = function [] -> (List.rev acc, []) | "?" :: r -> (List.rev acc, r) | x :: r -> split (x :: acc) r in
+    let evs, qs = split [] (List.filter (fun x -> x <> "") rest) in
+    let evs = List.map cp_event evs in
+    let verdict = match proto_err evs with None -> "ok" | Some (i, c) -> Printf.sprintf "rej:%d:%d" (int_of_nat i) (int_of_nat c) in
+    (* states of all prefixes, computed once *)
+    let n = List.length evs in
+    let states = Array.make (n + 1) st0 in
+    List.iteri (fun i e -> states.(i + 1) <- papply states.(i) e) evs;
+    let answers = List.map (fun q ->
+        match String.split_on_char '/' q with
+        | [cut; c] ->
+          let st = states.(min n (int_of_string cut)) in
+          let st' = do_crash st (cp_crash c) in
+          Printf.sprintf "%s;next=%d;dead=%s" (cp_show_rec (recover st')) (int_of_nat st.next)
+            (String.concat "," (List.map (fun b -> string_of_int (int_of_nat b)) st'.dead))
+        | _ -> "bad-query") qs in
+    String.concat " | " (verdict :: answers)
+  | ["fuzz"; seed; steps; walks] -> cp_fuzz (int_of_string seed) (int_of_string steps) (int_of_string walks)
+  | _ -> "bad-command"
+
 let () =
   try
     while true do
@@ -997,6 +1169,7 @@ let () =
             | "lk" :: rest -> lk_cmd rest
             | "e3" :: rest -> e3_cmd rest
             | "rg" :: rest -> rg_cmd rest
+            | "cp" :: rest -> cp_cmd rest
             | _ -> "bad-command"
           with
           | Not_found -> "error:not-found"
